@@ -6,9 +6,10 @@
    kind = "text":  {kind, F, obs, txt}     F a file (see CifText), obs = [oc, f] what
                    CIFFile.deserialize(CIFFile(F).serialize()) returned, txt the text biotite wrote.
                    Events are independent of each other.
-   kind = "map":   {kind, fl, pb, pc, op, a, oc, out, abs}   one mapping call on a container of
+   kind = "map":   {kind, fl, pb, pc, op, a, oc, out, abs, ser}   one mapping call on a container of
                    flavour fl (history starts with an empty file); abs is the content after the
-                   call, out the returned value.
+                   call, out the returned value, ser = [oc, abs] what writing and re-reading an
+                   independent copy of the container gave after the call (MCContainers: `ser`).
 
    Every event is judged on its own and the run never stops:
      <<"MISMATCH", tid, i, "known" | "unknown", kb, ...>>   the property does not hold for the event;
@@ -44,7 +45,13 @@ MapStep(e, i) ==
       ok == r.oc = e.oc /\ AbsFile(r.f) = e.abs /\ (r.oc # "ok" \/ OutMatches(e.op, r.out, e.out))
       k  == ApplyKBAt(e.fl, S, e.pb, e.pc, e.op, e.a)
       known == r.kb # {} /\ k.oc = e.oc /\ AbsFile(k.f) = e.abs
-  IN IF ok THEN S' = r.f
+      \* the observation after the call: a serialisable content is written and read back unchanged,
+      \* anything else is refused - whatever the history left inside the objects
+      wr    == IdealSerializable(AbsFile(r.f))
+      serok == IF wr THEN e.ser.oc = "ok" /\ e.ser.abs = AbsFile(r.f) ELSE e.ser.oc = "Rejected"
+  IN IF ok THEN /\ S' = r.f
+                /\ (IF serok THEN TRUE
+                    ELSE PrintT(<<"MISMATCH", tid, i, "unknown", {}, "ser", AbsFile(r.f), wr>>))
      ELSE /\ PrintT(<<"MISMATCH", tid, i, IF known THEN "known" ELSE "unknown", r.kb, r.oc, AbsFile(r.f), r.out>>)
           /\ S' = IF known THEN k.f ELSE FreshFile(e.abs)
 
